@@ -32,6 +32,8 @@ class Ctx:
         self._cli = None
         self._so = None
         self.findings_db = load_findings()
+        import shutil
+        shutil.rmtree(os.path.join(VERIF, 'replays', prop), ignore_errors=True)   # replays of earlier runs are stale
         self.finding_hits = collections.Counter()
         self.finding_excluded = collections.Counter()
 
